@@ -56,6 +56,11 @@ def gen_specs(which):
         "g": D.spec(["z"], [ZL], ["i"], vk="i", base=8),
         "h": D.spec(["z", "x"], [ZL, x], ["i", kx], vk="f", base=9, nan=(1, 4)),
     }
+    if which.split(":")[2] == "s":
+        # the sorted float x axis also carries a tolerance of its own (Axis(..., tol=)): Dataset and per-variable results agree on it too
+        for c in pool:
+            if "x" in pool[c]["dims"]:
+                pool[c] = dict(pool[c], axtol=[0.25 if d == "x" else None for d in pool[c]["dims"]])
     return [("v" + c, pool[c]) for c in letters]
 
 
@@ -237,6 +242,8 @@ def same_da(got, exp, what, rtol=1e-12):
         for ga, ea in zip(got.axes, exp.axes):
             if common.freeze(dict(ga.attrs)) != common.freeze(dict(ea.attrs)):
                 return "{}: metadata of axis {} is {} but the DimArray operation gives {}".format(what, ga.name, dict(ga.attrs), dict(ea.attrs))
+            if getattr(ga, "tol", None) != getattr(ea, "tol", None):
+                return "{}: tolerance of axis {} is {} but the DimArray operation gives {}".format(what, ga.name, getattr(ga, "tol", None), getattr(ea, "tol", None))
         return None
     ev = exp.values[()] if isinstance(exp, DimArray) else exp
     gv = got.values[()] if isinstance(got, DimArray) and got.ndim == 0 else got
